@@ -33,7 +33,8 @@ def run(rep, idx, tier):
     rep.require("C12.4", 3)
     rep.require("C12.5", 3)
     from . import glue
-    glue.reset_discipline(rep, "C12.5", idx, ["csr/action:RW", "csr/action:RW1C", "csr/action:RW1S"])
+    glue.reset_discipline(rep, "C12.5", idx, ["csr/action:RW", "csr/action:RW1C", "csr/action:RW1S"],
+                          allowed_init=[(("RW", "_storage"), "init"), (("RW1C", "_storage"), "init"), (("RW1S", "_storage"), "init")])
 
     # ---- storage actions -------------------------------------------------------------------
     for cname, kind in (("RW", "rw"), ("RW1C", "w1c"), ("RW1S", "w1s")):
